@@ -5,3 +5,4 @@ pub mod nopanic;
 pub mod spec;
 pub mod nonce;
 pub mod timeclaims;
+pub mod claimkeys;
